@@ -479,7 +479,7 @@ func c10Decode12(o *c10LiveOut, dgrams []*labDgram, sc *scenCfg, s c10Suite, key
 			sentIdx++
 		}
 	}
-	if o.Finished < 2 {
+	if o.Finished < 2 && len(o.Viol) == 0 {
 		o.Lab = fmt.Sprintf("only %d Finished messages decoded", o.Finished)
 	}
 	if o.AppData != len(sent) {
@@ -717,7 +717,9 @@ func c10Decode13(o *c10LiveOut, r *labRun, dgrams []*labDgram, s c10Suite, sent 
 		}
 	}
 	if !haveHS || !haveAP || o.Finished < 2 {
-		o.Lab = fmt.Sprintf("incomplete decode: hs=%v ap=%v finished=%d", haveHS, haveAP, o.Finished)
+		if len(o.Viol) == 0 {
+			o.Lab = fmt.Sprintf("incomplete decode: hs=%v ap=%v finished=%d", haveHS, haveAP, o.Finished)
+		}
 
 		return
 	}
